@@ -109,7 +109,7 @@ VALUES = {
     ('List', 'bounds'): [(0, 2), (1, None), (0, None), (2, 3)],
     'inclusive_bounds': [(True, True), (False, True), (True, False), (False, False)],
     'softbounds': [(1, 2), None, (0, 100)],
-    'step': [1, 0.5, None],
+    'step': [1, 0.5, None, -1, -1, 1],
     'regex': ['^a', '^z+', None, '.*9$'],
     'length': [2, 3],
     'doc': ['d1', 'd2', None],
@@ -125,8 +125,21 @@ def slots_of(tname):
     return COMMON + EXTRA[tname]
 
 
-def gen_explicit(rng, tname):
+HINTS = ['step', 'softbounds', 'doc', 'label', 'precedence']
+
+
+def gen_explicit(rng, tname, hints_only=False, first=False):
     exp = {}
+    if hints_only:
+        # a redeclaration that touches nothing but presentation hints (what a slider shows, documentation)
+        avail = [s for s in HINTS if s in slots_of(tname)]
+        for s in rng.sample(avail, rng.randint(1, min(2, len(avail)))):
+            exp[s] = rng.choice(VALUES.get((tname, s)) or VALUES.get(s))
+        return exp
+    if first and tname == 'Range' and rng.random() < 0.3:
+        # a range that may also be None, running the way its step says
+        down = rng.random() < 0.5
+        return dict(default=(5, 1) if down else (1, 2), step=-1 if down else 1, allow_None=True)
     for s in slots_of(tname):
         if (tname == 'Dict' and s == 'is_instance') or (tname == 'Range' and s == 'length'):
             continue        # (a Dict of classes is not a meaningful declaration; the slot can still be inherited)
@@ -300,7 +313,9 @@ def run_case(idx, rng, P, rep):
         if ancestors and rng.random() < (0.55 if shape == 'diamond' and ci == 3 else 0.3):
             tname = rng.choice(TYPE_MOVES[tname])
         T = getattr(param, tname)
-        exp = gen_explicit(rng, tname)
+        exp = gen_explicit(rng, tname, hints_only=bool(ancestors) and rng.random() < 0.12, first=not ancestors)
+        if len(exp) <= 2 and set(exp) <= set(HINTS):
+            rep.count('hint_only_redeclarations')
         if shape == 'diamond' and ci in (1, 2) and rng.random() < 0.4:
             exp['instantiate'] = rng.random() < 0.5     # the two branches of a diamond often disagree on instantiate
         level = dict(level=ci, type=tname, explicit={k: repr(v) for k, v in exp.items()}, via='add_parameter' if via_add else 'class body')
